@@ -6,8 +6,13 @@ import props
 from common import VERIF
 
 ALL = ["C%02d" % i for i in range(1, 21)]
+# lib/enabled.txt lists the properties whose checks are finished (validated on several seeds and by mutations);
+# fragments of monitors still under construction are ignored here.
+ENABLED = [l.strip() for l in open(os.path.join(VERIF, "lib", "enabled.txt")) if l.strip() and not l.startswith("#")]
 checks = []
 for pid in sorted(props.PROPS):
+    if pid not in ENABLED:
+        continue
     p = props.PROPS[pid]
     checks.append(dict(
         property_id=pid,
@@ -21,7 +26,7 @@ for pid in sorted(props.PROPS):
         technique=p["technique"],
     ))
 na = [dict(property_id=i, reason=props.NOT_YET.get(i, "monitor not built yet in this revision of /verif (planned, see DESIGN.md section 4)"))
-      for i in ALL if i not in props.PROPS]
+      for i in ALL if i not in ENABLED]
 m = dict(
     version=1,
     setup_cmd="./check --setup",
@@ -30,7 +35,7 @@ m = dict(
                baseline_off_cmd="cmake -G Ninja -S /repo -B /repo/_build && cmake --build /repo/_build -j16 && ctest --test-dir /repo/_build -j8 --timeout 900",
                source_commits=props.HOOK_COMMITS, add_only=True),
     engines=[dict(name="imath-runtime-monitors", path="check",
-                  serves_properties=sorted(props.PROPS),
+                  serves_properties=sorted(ENABLED),
                   kind_free_text="runtime monitors: generated/exhaustive workloads executed on the real code built from /repo, each case judged by an independent oracle; gcc ASan+UBSan (and TSan for C20) builds of the same workloads; python driver turns monitor logs into verdicts, replay files and evidence")],
     checks=checks,
     notes="See DESIGN.md. known_findings.json lists genuine defects (known / fixed). Exit 2 = inconclusive (build failure, watchdog, declared input class never observed).",
